@@ -33,7 +33,7 @@ Conforms(di, doc) ==
             /\ Len(runs[r].hops) = Len(o.runs[r].hops)
             /\ \A k \in DOMAIN o.runs[r].hops :
                  LET a == runs[r].hops[k]  b == o.runs[r].hops[k] IN
-                 /\ a.ttl = b.ttl /\ a.ip_address = b.ip_address /\ a.rtt = b.rtt /\ a.reachable = b.reachable
+                 /\ a.ttl = b.ttl + di.first_ttl - 1 /\ a.ip_address = b.ip_address /\ a.rtt = b.rtt /\ a.reachable = b.reachable
                  /\ NamesOfHop(a) = b.names
        /\ (Len(o.runs) > 0 => /\ doc.traceroute.hop_count.min = o.hc.min /\ doc.traceroute.hop_count.max = o.hc.max
                               /\ Near(doc.traceroute.hop_count.avg, o.hc.sum * 1000, o.hc.n))
@@ -79,7 +79,7 @@ C17_json(di, out) ==
            /\ Len(runs[r].hops) = Len(di.runs[r].hops)
            /\ \A k \in DOMAIN di.runs[r].hops :
                 LET i == di.runs[r].hops[k]  h == runs[r].hops[k] IN
-                /\ h.ttl = k
+                /\ h.ttl = di.first_ttl + k - 1
                 /\ IsPrivate(i.b) => (h.ip_address = "" /\ h.rtt = 0 /\ ~h.reachable /\ ~("reverse_dns" \in DOMAIN h))
                 /\ ~IsPrivate(i.b) => (h.ip_address = i.s /\ h.rtt = i.rtt * 1000 /\ (h.reachable <=> i.s # "")
                                        /\ NamesOfHop(h) = (IF di.enrich /\ i.s \in DOMAIN di.names THEN di.names[i.s] ELSE <<>>))
